@@ -23,6 +23,8 @@ ARG_SHAPES = [
     [[1, 2], [3, 4]], ([0.5], {"z": 2}), [], {}, {"width": 3, "height": 5}, {"z": 1.5, "m": [2, {"b": 7, "a": 8}]},
 ]
 BODIES = ["identity", "product", "compare", "constant", "mixed", "first_twice", "same_object", "shared_constant", "debug_text"]
+# "maybe_boom": the body raises a ValueError of its own when its first number is 13 (the caller handles it), else a product;
+# within one sequence every call of this body goes through the SAME wrapped function object
 
 
 def leaves(x, out=None):
@@ -65,6 +67,11 @@ def body(name):
         if name == "constant" or not L:
             return 7
         a, b = L[0], L[-1]
+        if name == "maybe_boom":
+            x = a * b
+            if (a.value if hasattr(a, "value") else (a if isinstance(a, int) else None)) == 13:
+                raise ValueError("boom")
+            return [x, a + 1]
         if name == "debug_text":
             # the body formats its wires (repr, str, %-formatting, f-string) the way a debug print or log line does
             x = a * b
@@ -146,6 +153,7 @@ def run_sequence(seq, p):
     H.reset(bitlength=12, resolution=RES)
     rt = H.rt
     problems = []
+    shared_wrappers = {}
     for ci, (bname, shapes) in enumerate(seq):
         traced, plain = zip(*[materialise(s) for s in shapes]) if shapes else ((), ())
         fn = body(bname)
@@ -158,7 +166,20 @@ def run_sequence(seq, p):
             captured["nvars_at_return"] = len(H.R.vars)
             return r
         try:
-            got = rt.snark(spy)(*traced)
+            if bname == "maybe_boom":
+                # one wrapped function object for the whole sequence (the spy is re-pointed per call)
+                if "w" not in shared_wrappers:
+                    shared_wrappers["spy"] = [spy]
+                    shared_wrappers["w"] = rt.snark(lambda *a: shared_wrappers["spy"][0](*a))
+                shared_wrappers["spy"][0] = spy
+                got = shared_wrappers["w"](*traced)
+            else:
+                got = rt.snark(spy)(*traced)
+        except ValueError as ex:
+            if bname == "maybe_boom" and str(ex) == "boom":
+                continue            # the caller handles the body's own error and goes on with the next call
+            problems.append(("call-raises", ci, "%s: %s" % (type(ex).__name__, str(ex)[:100])))
+            return problems
         except Exception as ex:  # noqa: BLE001
             problems.append(("call-raises", ci, "%s: %s" % (type(ex).__name__, str(ex)[:100])))
             return problems
@@ -314,6 +335,11 @@ def sequences(level):
         seqs.append([(b, [early])])
         seqs.append([(b, list(range(1, 33)) + [[5, 6], 7])])        # 34 positional arguments, a list among the last ones
         seqs.append([(b, [[S] * 32 + [[S, 2]]])])
+    # a call whose body raises (handled by the caller), then further calls of the SAME wrapped function
+    for first in ([13, S], [13, 4]):
+        for later in ([3, S], [S, 5], [2.5, 3]):
+            seqs.append([("maybe_boom", first), ("maybe_boom", later)])
+            seqs.append([("maybe_boom", later), ("maybe_boom", first), ("maybe_boom", later), ("product", [3, S])])
     seqs.append([("product", [3 + (i % 5), S]) for i in range(40)])   # 40 calls in one run
     seqs.append([("identity", [[i, 2.5]]) for i in range(70)])
     sub = calls[:: (2 if level >= 1 else 5)]
